@@ -95,16 +95,12 @@ def _create_consumer(ctx, consumer_uuid, project, user, consumer_type_id,
                 'consumer generation conflict - expected null but the '
                 'consumer %s was created concurrently' % consumer_uuid,
                 comment=errors.CONCURRENT_UPDATE)
-        # Another thread created this consumer already, verify whether
-        # the consumer type matches
+        # Another thread created this consumer already. If the project, user
+        # or consumer type of this request differ from the record, it is
+        # brought into line by update_consumers(), in the transaction that
+        # writes the allocations, so that nothing changes if that write
+        # fails.
         consumer = consumer_obj.Consumer.get_by_uuid(ctx, consumer_uuid)
-        # If the types don't match, update the consumer record
-        if consumer_type_id != consumer.consumer_type_id:
-            LOG.debug("Supplied consumer type for consumer %s was "
-                      "different than existing record. Updating "
-                      "consumer record.", consumer_uuid)
-            consumer.consumer_type_id = consumer_type_id
-            consumer.update()
     return consumer, created_new_consumer
 
 
